@@ -49,6 +49,8 @@ class Gen(object):
 
     # ------------------------------------------------------------------ rendering
     def emit(self, line):
+        if self.o.get('spell', True) and line[:1] in 'MT' and line[1:2].isdigit() and self.rng.random() < 0.08:
+            line = line[0] + '0' + line[1:]            # M0117 / T00: hosts pass the code as written
         self.events.append(('cmd', line))
         self.U.execute(line)
 
@@ -150,7 +152,7 @@ class Gen(object):
         elif r < 0.28 and o['addregions']:
             self.events.append(('add', None))     # placeholder, placed later
         elif r < 0.30 and o['junk']:
-            self.emit(rng.choice(['G1', 'G1 F1200', 'G0 X', 'G1 X Y', 'G92', 'G28 X', 'G1 E', 'M206 X1', 'G10 P1 S200', 'G10 L2 X0']))
+            self.emit(rng.choice(['G1', 'G1 F1200', 'G0 X', 'G1 X Y', 'G92', 'G28 X', 'G1 E', 'M206 X1', 'M206 X0 Y0', 'M206 X2 Y-1', 'M206 Z0.5', 'G10 P1 S200', 'G10 L2 X0']))
         elif r < 0.315 and o.get('home', True) and not self.retracted:
             # homing in mid-print (after a unit / mode switch it must keep units and modes); the tool must not be inside a region
             self.home_points.append((self.U.x, self.U.y))
